@@ -545,7 +545,7 @@ def _expand_includes(path, seen=None):
     return res
 
 
-def render(template_path, out_path, vacuity=False):
+def render(template_path, out_path, vacuity=False, autoimport=()):
     """Process a template; write verifier input to out_path; return (report, linemap).
     linemap[i] = origin of output line i+1: ("repo", file, line) | ("spec", template file, line)."""
     src_lines = _expand_includes(template_path)
@@ -590,6 +590,19 @@ def render(template_path, out_path, vacuity=False):
             t = run_extraction(ex, report)
             emit(t, ex.args["file"])
             emit(SrcText("\n", [-(i + 1)]))
+            i += 1
+        elif st.startswith("//@autoimport"):
+            # helper functions that the extracted text calls and that are defined in the same repository file: imported verbatim on demand
+            a_args, _p = parse_args(st[len("//@autoimport"):])
+            for fname in autoimport:
+                ex = Extraction({"file": a_args["file"], "fn": fname}, ["item"], i + 1)
+                try:
+                    t = run_extraction(ex, report)
+                    report[-1]["rewrites"].append({"rule": "auto-imported helper function (called by an extracted fragment)", "name": fname})
+                    emit(t, a_args["file"])
+                    emit(SrcText("\n", [-(i + 1)]))
+                except LostAnchor:
+                    pass
             i += 1
         elif st.startswith("//@vacuity"):
             # canary slot inside an `ensures` list: only the shadow copy gets `false`
